@@ -46,6 +46,8 @@ try:
     if "--no-baseline" not in sys.argv:
         os.remove(os.path.join(wt, demo_path))
         rc, out = sh(f"python3 /verif/tools/baseline.py {wt}")
+        if rc != 0:  # timing-sensitive tests under load: one retry
+            rc, out = sh(f"python3 /verif/tools/baseline.py {wt}")
         res["baseline_passes_with_change"] = rc == 0
         res["baseline_tail"] = out.strip().splitlines()[-3:]
         shutil.copy(f"{src}/demo_test.go", os.path.join(wt, demo_path))
